@@ -38,7 +38,7 @@ fn('dsplib::istft', ST, sig='const dsplib::arr_real &, int, int', key='istft(xx,
             # every output sample is divided by a weight that is either above the threshold or replaced by 1:
             # no 0/0 or x/0 where the accumulated window weight vanishes
             # (k0: arbitrary ghost sample index)
-            ('guarded_normalisation', 'exists_w(lambda A, t: Or(A[k0] >= t, A[k0] == 1), data(norm_val), ToReal(nseg) * EPSV(nseg))')],
+            ('local:guarded_normalisation', 'exists_w(lambda A, t: Or(A[k0] >= t, A[k0] == 1), data(norm_val), ToReal(nseg) * EPSV(nseg))')],
    loops={1: {'inv': [('shape', 'And(x.len == xlen, norm_val.len == xlen, xlen == XL, nseg == xx.len, nwin == win.len, hop == nwin - overlap, win_nom.len == nwin, win_den.len == nwin)')]},
           2: {'inv': [('shape', 'And(x.len == xlen, norm_val.len == xlen)'),
                       ('guarded', 'Implies(k0 < i, Or(norm_val[k0] >= ToReal(nseg) * EPSV(nseg), norm_val[k0] == 1))')]}})
